@@ -125,6 +125,6 @@ inductive Codec
   | utf8
   | utf16 (le : Bool)
   /-- CJK / ISO-2022 / HZ codecs of the crate: not modelled, answered by the oracle -/
-  | opaque (id : Name)
+  | external (id : Name)
 
 end Charset
